@@ -1,0 +1,63 @@
+//go:build verif
+// +build verif
+
+package main
+
+import (
+	"encoding/json"
+	"os"
+	"strconv"
+	"strings"
+	"syscall"
+)
+
+// Verification hooks (build tag `verif` only).
+//
+// verifTrace appends one JSON line per cache decision of an invocation to
+// $GTS_VERIF_TRACE (miss/armed/hit/replayed/finalised/discarded), so a
+// history monitor can tell which invocations were really served from cache.
+// verifPointIO is a crash point: GTS_VERIF_FAULT=<point>:<hit>:kill makes
+// the process SIGKILL itself there.
+
+var verifIOHits = map[string]int{}
+
+func verifTrace(event string, kv ...interface{}) {
+	path := os.Getenv("GTS_VERIF_TRACE")
+	if path == "" {
+		return
+	}
+	m := map[string]interface{}{"pid": os.Getpid(), "ev": event}
+	for i := 0; i+1 < len(kv); i += 2 {
+		if k, ok := kv[i].(string); ok {
+			m[k] = kv[i+1]
+		}
+	}
+	b, err := json.Marshal(m)
+	if err != nil {
+		return
+	}
+	f, err := os.OpenFile(path, os.O_APPEND|os.O_CREATE|os.O_WRONLY, 0644)
+	if err != nil {
+		return
+	}
+	f.Write(append(b, '\n'))
+	f.Close()
+}
+
+func verifPointIO(name string) {
+	verifIOHits[name]++
+	verifTrace("io-point", "point", name, "hit", verifIOHits[name])
+	env := os.Getenv("GTS_VERIF_FAULT")
+	if env == "" {
+		return
+	}
+	parts := strings.SplitN(env, ":", 3)
+	if len(parts) != 3 || parts[0] != name || parts[2] != "kill" {
+		return
+	}
+	if n, err := strconv.Atoi(parts[1]); err != nil || n != verifIOHits[name] {
+		return
+	}
+	syscall.Kill(os.Getpid(), syscall.SIGKILL)
+	select {}
+}
